@@ -120,7 +120,7 @@ def pmap(fn, arglist, procs=12):
     return res
 
 
-TRACE_FIELDS = ('id', 'nc', 'init', 'ev')
+TRACE_FIELDS = ('id', 'nc', 'init', 'ev')     # what TLC needs (no JSON null anywhere in these)
 
 
 def _validate_batch(args):
